@@ -18,7 +18,7 @@ def decode(s):
 def record_trace(plain, args, work):
     shutil.rmtree(work, ignore_errors=True); os.makedirs(work)
     tr = os.path.join(work, 'trace.txt')
-    cmd = ['strace', '-f', '-xx', '-s', '100000000', '-e', 'trace=openat,write,close,rename,unlink', '-o', tr, plain] + args + [work]
+    cmd = ['strace', '-f', '-xx', '-s', '100000000', '-e', 'trace=openat,write,writev,close,rename,unlink', '-o', tr, plain] + args + [work]
     r = subprocess.run(cmd, capture_output=True, text=True, timeout=300, env=dict(os.environ, ASAN_OPTIONS='detect_leaks=0'))
     events = []; fds = {}
     names = {os.path.join(work, 'ck'): 'ck', os.path.join(work, 'ck_old'): 'old', os.path.join(work, 'calls.log'): 'log'}
@@ -36,6 +36,12 @@ def record_trace(plain, args, work):
             f = fds[int(m.group(1))]; data = decode(m.group(2))
             if f == 'log': events.append(('call', data.count(b'CALL'), [l.split(b' ', 1)[1].decode() for l in data.split(b'\n') if l.startswith(b'CALL ')]))
             else: events.append(('write', f, data))
+            continue
+        m = re.match(r'\d+\s+writev\((\d+), \[(.*)\], \d+\)\s+= (-?\d+)', line)   # libstdc++ filebuf writes large blocks with writev
+        if m and int(m.group(1)) in fds:
+            f = fds[int(m.group(1))]; data = b''.join(decode(x) for x in re.findall(r'iov_base="((?:\\x[0-9a-f]{2})*)"', m.group(2)))
+            if int(m.group(3)) >= 0: data = data[:int(m.group(3))]
+            if f != 'log' and data: events.append(('write', f, data))
             continue
         m = re.match(r'\d+\s+close\((\d+)\)', line)
         if m and int(m.group(1)) in fds:
@@ -208,7 +214,7 @@ def run_config(name, sp, budget, batch, tier):
         if q < tm.N and tm.ev[q][0] == 'write' and len(tm.ev[q][2]) > 2:
             c = ask([p == q, l >= 1], 'torn class at %d' % q)
             if c: reps.append(c)
-            if tier != 'quick':
+            if tier != 'quick' or 'pre' in name:
                 c = ask([p == q, l >= len(tm.ev[q][2]) - 1], 'torn-tail class at %d' % q)
                 if c: reps.append(c)
     out['classes'] = len(reps)
@@ -256,6 +262,7 @@ def run(tier, seed, only=None):
     t0 = time.time()
     cfgs = [('lp-localp-d2-b6-batch1', spec('localp', 'localp', 2, 1, 1, order=1), 6, 1), ('sq-rleja-d2-b5-batch2', spec('sequence', 'rleja', 2, 1, 1), 5, 2), ('gl-cc-d2-b7-batch1', spec('global', 'clenshaw-curtis', 2, 1, 1), 7, 1)]
     cfgs += [('lp-localp-d2o1-b6-batch1-preseed', spec('localp', 'localp', 2, 1, 1, order=1), 6, '1p'), ('sq-rleja-d2o1-b5-batch1-preseed', spec('sequence', 'rleja', 2, 1, 1), 5, '1p')]   # outputs != dimensions, parked samples in every image
+    cfgs += [('sq-rleja-d2o1-pre1035-b4-batch1', spec('sequence', 'rleja', 2, 1, 44), 4, '1L')]   # >= 1000 loaded points: the checkpoint carries finished samples in the trailer behind the grid
     if tier != 'quick':
         cfgs += [('wv-wavelet-d2o1-b6-batch1-preseed', spec('wavelet', 'wavelet', 2, 1, 1, order=1), 6, '1p'), ('lp-semilocalp-d1o2-b5-batch2-preseed', spec('localp', 'semi-localp', 1, 2, 1, order=2), 5, '2p'), ('gl-cc-d2o1-b7-batch1-preseed', spec('global', 'clenshaw-curtis', 2, 1, 1), 7, '1p')]
         cfgs += [('gl-cc-d2-b6-batch1', spec('global', 'clenshaw-curtis', 2, 1, 1), 6, 1), ('gl-rlejadouble2-d2-b9-batch2', spec('global', 'rleja-double2', 2, 1, 2), 9, 2), ('gl-leja-d2-b6-batch1', spec('global', 'leja', 2, 1, 2), 6, 1), ('lp-semilocalp-d2-b6-batch2', spec('localp', 'semi-localp', 2, 1, 1, order=2), 6, 2), ('fr-fourier-d1-b5-batch1', spec('fourier', 'fourier', 1, 1, 1), 5, 1),
